@@ -303,17 +303,30 @@ impl<F: Fam> Ctx<F> {
             }
             ZOp::Dup(n) => {
                 let n = (n % 40) as usize + 1;
-                self.z_guard(|z| {
+                let r = self.r;
+                let bad = self.z_guard(|z| {
+                    let mut bad: Option<(usize, usize)> = None;
                     for _ in 0..n {
+                        let l0 = z.maps[0].verif_state().old.map_or(0, |o| o.len);
                         match z.maps[0].raw_entry_mut().from_hash(h, |_| false) {
                             RawEntryMut::Vacant(v) => {
                                 v.insert(ZK::new(), ZV::new());
                             }
                             RawEntryMut::Occupied(_) => panic!("from_hash with a matcher that never matches returned Occupied"),
                         }
+                        let l1 = z.maps[0].verif_state().old.map_or(0, |o| o.len);
+                        // an insertion with L elements waiting moves min(R, L) of them (a new resize
+                        // cannot start while L > 0)
+                        if l0 > 0 && l1 != l0 - l0.min(r) && bad.is_none() {
+                            bad = Some((l0, l1));
+                        }
                     }
+                    bad
                 })?;
                 self.z.counts[0] = c0 + n;
+                if let Some((l0, l1)) = bad {
+                    fail!(self, [C03, C02], "moved-count", "zero-sized map: an insertion with {} elements waiting in the old table left {} there (expected {})", l0, l1, l0 - l0.min(r));
+                }
             }
             ZOp::Remove | ZOp::RemoveEntry => {
                 let entry = matches!(op, ZOp::RemoveEntry);
